@@ -27,14 +27,18 @@ static char *vp_getenv(const char *name);
 #ifndef T
 #define T 0          /* 0 int, 1 size_t, 2 string */
 #endif
+#ifndef NSYN
+#define NSYN 1        /* number of synonyms of the parameter (1 or 2) */
+#endif
 
 /* ---- stubs ---- */
 parsec_list_t parsec_mca_param_file_values;
-static const char *env_own, *env_syn;
+static const char *env_own, *env_syn, *env_syn2;
 static char *vp_getenv(const char *name)
 {
     if (0 == strcmp(name, "PARSEC_MCA_own")) return (char *)env_own;
     if (0 == strcmp(name, "PARSEC_MCA_syn")) return (char *)env_syn;
+    if (0 == strcmp(name, "PARSEC_MCA_syn2")) return (char *)env_syn2;
     return NULL;
 }
 static int help_calls;
@@ -90,6 +94,11 @@ static void instance(int ovr, int eo, int es, int fl, int ro, long long ov, long
     si = PARSEC_OBJ_NEW(parsec_syn_info_t);
     si->si_full_name = strdup("syn"); si->si_env_var_name = strdup("PARSEC_MCA_syn");
     parsec_list_append(&syns, &si->super);
+#if NSYN == 2
+    parsec_syn_info_t *si2 = PARSEC_OBJ_NEW(parsec_syn_info_t);
+    si2->si_full_name = strdup("syn2"); si2->si_env_var_name = strdup("PARSEC_MCA_syn2");
+    parsec_list_append(&syns, &si2->super);
+#endif
     memset(params, 0, sizeof(params));
     parsec_mca_param_t *p = &params[1];
     params[0].mbp_type = PARSEC_MCA_PARAM_TYPE_INT; params[0].mbp_full_name = (char *)"zero"; params[0].mbp_default_value.intval = 99;
@@ -101,9 +110,9 @@ static void instance(int ovr, int eo, int es, int fl, int ro, long long ov, long
     else if (T == 1) { p->mbp_default_value.sizetval = (size_t)df; p->mbp_override_value.sizetval = (size_t)ov; }
     else { p->mbp_default_value.stringval = dfs; p->mbp_override_value.stringval = ovs; }
     p->mbp_override_value_set = ovr ? true : false;
-    env_own = ENVOWN[eo]; env_syn = es ? "12" : NULL;
+    env_own = ENVOWN[eo]; env_syn = (es & 1) ? "12" : NULL; env_syn2 = (es & 2) ? "13" : NULL;
     add_file_value("other", "9");
-    if (fl) add_file_value(fl == 1 ? "own" : "syn", "5");
+    if (fl) add_file_value(fl == 1 ? "own" : fl == 2 ? "syn" : "syn2", "5");
     mca_params.array_items = (unsigned char *)params; mca_params.array_item_sizeof = sizeof(parsec_mca_param_t);
     mca_params.array_size = 2; mca_params.array_alloc_size = 2;
     initialized = true;
@@ -113,7 +122,8 @@ static void instance(int ovr, int eo, int es, int fl, int ro, long long ov, long
     if (ro)        { esrc = MCA_PARAM_SOURCE_DEFAULT;  ev = df;            es_txt = "df"; }
     else if (ovr)  { esrc = MCA_PARAM_SOURCE_OVERRIDE; ev = ov;            es_txt = "ov"; }
     else if (eo)   { esrc = MCA_PARAM_SOURCE_ENV;      ev = ENVOWN_V[eo];  es_txt = ENVOWN[eo]; }
-    else if (es)   { esrc = MCA_PARAM_SOURCE_ENV;      ev = 12;            es_txt = "12"; }
+    else if (es & 1) { esrc = MCA_PARAM_SOURCE_ENV;    ev = 12;            es_txt = "12"; }   /* synonyms in registration order */
+    else if (es & 2) { esrc = MCA_PARAM_SOURCE_ENV;    ev = 13;            es_txt = "13"; }
     else if (fl)   { esrc = MCA_PARAM_SOURCE_FILE;     ev = 5;             es_txt = "5"; }
     else           { esrc = MCA_PARAM_SOURCE_DEFAULT;  ev = df;            es_txt = "df"; }
 
@@ -146,20 +156,37 @@ static void instance(int ovr, int eo, int es, int fl, int ro, long long ov, long
     parsec_list_item_t *it;
     while (NULL != (it = parsec_list_pop_front(&parsec_mca_param_file_values))) PARSEC_OBJ_RELEASE(it);
     PARSEC_OBJ_DESTRUCT(&parsec_mca_param_file_values);
-    it = parsec_list_pop_front(&syns); PARSEC_OBJ_RELEASE(it); PARSEC_OBJ_DESTRUCT(&syns);
+    while (NULL != (it = parsec_list_pop_front(&syns))) PARSEC_OBJ_RELEASE(it);
+    PARSEC_OBJ_DESTRUCT(&syns);
     if (p->mbp_file_value_set) { free(p->mbp_source_file); if (T == 2) free(p->mbp_file_value.stringval); }
     if (!ro && !ovr && eo == 0 && es && fl) VWITNESS("synonym in the environment beats the file");
     if (!ro && !ovr && !eo && !es && fl == 2) VWITNESS("file value found through the synonym");
+#if NSYN == 2
+    if (!ro && !ovr && !eo && es == 2 && fl) VWITNESS("second synonym alone in the environment beats the file");
+    if (!ro && !ovr && !eo && es == 3) VWITNESS("both synonyms set: the first registered wins");
+    if (!ro && !ovr && !eo && !es && fl == 3) VWITNESS("file value found through the second synonym");
+#endif
+#if NSYN == 1
     if (ro && ovr) VWITNESS("read-only parameter ignores the override");
+#endif
     if (!ro && ovr && eo && fl) VWITNESS("override beats environment and file");
 }
 
 int main(void)
 {
     instance(0, 1, 0, 1, 0, 3, 4);      /* concrete warm-up: builds the lazily initialised class tables */
-    int c_ovr = IN_BOOL(), c_eo = IN_RANGE(0, 2), c_es = IN_BOOL(), c_fl = IN_RANGE(0, 2), c_ro = IN_BOOL();
+#if NSYN == 2
+#define NES 4
+#define NFL 4
+#define NRO 1      /* read-only is covered by the one-synonym queries */
+#else
+#define NES 2
+#define NFL 3
+#define NRO 2
+#endif
+    int c_ovr = IN_BOOL(), c_eo = IN_RANGE(0, 2), c_es = IN_RANGE(0, NES - 1), c_fl = IN_RANGE(0, NFL - 1), c_ro = IN_RANGE(0, NRO - 1);
     long long ov = IN_INT(), df = IN_INT();
-    for (int a = 0; a < 2; a++) for (int b = 0; b < 3; b++) for (int c = 0; c < 2; c++) for (int d = 0; d < 3; d++) for (int e = 0; e < 2; e++)
+    for (int a = 0; a < 2; a++) for (int b = 0; b < 3; b++) for (int c = 0; c < NES; c++) for (int d = 0; d < NFL; d++) for (int e = 0; e < NRO; e++)
         if (a == c_ovr && b == c_eo && c == c_es && d == c_fl && e == c_ro) instance(a, b, c, d, e, ov, df);
     return 0;
 }
